@@ -1,17 +1,18 @@
-import sys
+import sys, os
 sys.path.insert(0, "/verif")
 from pyvc.symex import Engine
 from pyvc.load import load_contracts
 from pyvc import prove
-import os
 E = Engine(os.environ.get("PYVC_SRC", "/repo/src"))
 load_contracts(E, sys.argv[1].split(","))
 pat = sys.argv[2]
 defs = sys.argv[3] if len(sys.argv) > 3 else None
+fuel = int(sys.argv[4]) if len(sys.argv) > 4 else None
+nl = sys.argv[5] if len(sys.argv) > 5 else "exact"
 for t in E.registry.contracts:
-    if pat.startswith(t):
+    if pat.startswith(t + "/"):
         r = prove.generate(E, t)
         for o in r.obligations:
-            if o.name == pat or pat in o.name:
-                open("/tmp/vc.smt2","w").write(prove.vc_text(E, o, defs=defs))
-                print("dumped", o.name); sys.exit()
+            if o.name == pat:
+                open("/tmp/vc.smt2","w").write(prove.vc_text(E, o, defs=defs, fuel=fuel or o.fuel, nl=nl))
+                print("dumped", o.name, "fuel", fuel or o.fuel); sys.exit()
